@@ -747,19 +747,20 @@ func (vfs *OrefaFS) RemoveAll(path string) error {
 		return nil
 	}
 
-	if child.mode.IsDir() {
-		vfs.removeAll(absPath, child)
-	}
+	parent.mu.Lock()
+	defer parent.mu.Unlock()
 
-	child.remove()
+	vfs.removeAll(absPath, child)
 
 	delete(parent.children, fileName)
-	delete(vfs.nodes, absPath)
 
 	return nil
 }
 
 func (vfs *OrefaFS) removeAll(absPath string, rootNode *node) {
+	rootNode.mu.Lock()
+	defer rootNode.mu.Unlock()
+
 	if rootNode.mode.IsDir() {
 		for fileName, nd := range rootNode.children {
 			path := absPath + string(vfs.PathSeparator()) + fileName
